@@ -25,8 +25,20 @@ def main():
     try:
         if a.selftest:
             return mod.selftest()
-        if a.replay:
+        if a.replay and hasattr(mod, 'replay'):
             return mod.replay(a.replay)
+        if a.replay:
+            # generic replay: every check is deterministic in (tier, seed); the replay file name records both
+            # (<tier>-<seed>-<n>.json), so the violating behaviour is reproduced by re-running the check with them
+            import json
+            base = os.path.basename(a.replay).split('-')
+            tier, seed = (base[0], int(base[1])) if len(base) >= 3 and base[0] in ('quick', 'thorough') and base[1].isdigit() else (a.tier, a.seed)
+            with open(a.replay) as f:
+                rec = json.load(f)
+            print('replaying {} key={} what={}'.format(a.replay, rec.get('key'), str(rec.get('what'))[:300]))
+            rep = Report(pid, tier, seed, getattr(mod, 'LEVEL', 'model_checking'))
+            mod.run(rep)
+            return rep.finish()
         rep = Report(pid, a.tier, a.seed, getattr(mod, 'LEVEL', 'model_checking'))
         mod.run(rep)
         return rep.finish()
